@@ -35,8 +35,8 @@ type rumpKey struct {
 }
 
 type rumpPage struct {
-	keys   []int // indexes into the script's key list
-	cursor int64 // cursor returned with this page (0 = last)
+	keys   []int         // indexes into the script's key list
+	cursor int64         // cursor returned with this page (0 = last)
 	delay  time.Duration // the source takes this long to answer the SCAN that returns this page
 }
 
